@@ -6,14 +6,15 @@
 // its last frame, then end of stream; accept callback in {allow, reject not-found, reject already-syncing}; replica in {open and syncing, open with
 // sync disabled, not open}; the real BobState::run over an in-memory duplex stream against a real store actor. Initiating side: run_alice against every
 // scripted reply sequence of up to 3 frames over the same alphabet, replica syncing or not open. Checked: both sides return within 10 s without
-// panicking, the accepting side reports its outcome, a declined or never-accepted request leaves the store unchanged, only the smuggled entry can appear
+// panicking, the accepting side reports its outcome, a declined peer is sent exactly one Abort frame with the reason, a broken first reply is an
+// error on the initiating side, a declined or never-accepted request leaves the store unchanged, only the smuggled entry can appear
 // and only after the callback allowed the request on a syncing replica.
 #[cfg(test)]
 mod verif_rp_c10_session {
     use std::time::Duration;
 
     use iroh::SecretKey;
-    use tokio::io::AsyncWriteExt;
+    use tokio::io::{AsyncReadExt, AsyncWriteExt};
 
     use super::*;
     use crate::{actor::OpenOpts, store::{self, Query}, sync::SignedEntry, NamespaceSecret};
@@ -98,12 +99,22 @@ mod verif_rp_c10_session {
             let ns = state.namespace();
             (res.map_err(|e| format!("{e:?}")), ns, state.into_outcome())
         });
-        let (_alice_reader, mut alice_writer) = tokio::io::split(alice_io);
+        let (mut alice_reader, mut alice_writer) = tokio::io::split(alice_io);
         alice_writer.write_all(&bytes_of(ctx, seq, cut)).await.unwrap();
         alice_writer.shutdown().await.unwrap();
         let joined = tokio::time::timeout(Duration::from_secs(10), task).await;
         let joined = match joined { Ok(j) => j, Err(_) => panic!("WITNESS {what}: still waiting after 10 s") };
         let (res, _ns, _outcome) = match joined { Ok(r) => r, Err(e) => panic!("WITNESS {what}: panicked ({e})") };
+        // what the acceptor wrote (its writer is dropped with the finished task): a declined request must have been answered with an Abort frame
+        let mut written = vec![];
+        let _ = tokio::time::timeout(Duration::from_secs(10), alice_reader.read_to_end(&mut written)).await;
+        let mut buf = BytesMut::from(&written[..]);
+        let mut replies = vec![];
+        while let Ok(Some(m)) = SyncCodec.decode(&mut buf) { replies.push(m); }
+        if cb != Cb::Allow && matches!(seq.first(), Some(Fr::InitFp) | Some(Fr::InitEntry) | Some(Fr::InitUnknown)) && !(cut && seq.len() == 1) {
+            let want = if cb == Cb::RejectNotFound { AbortReason::NotFound } else { AbortReason::AlreadySyncing };
+            assert!(matches!(replies.as_slice(), [Message::Abort { reason }] if *reason == want), "WITNESS {what}: the declined peer was not sent exactly one Abort({want:?}) frame, it received {replies:?}");
+        }
         let mut st = match tokio::time::timeout(Duration::from_secs(10), handle.shutdown()).await {
             Ok(Ok(st)) => st,
             other => panic!("WITNESS {what}: the store actor does not shut down afterwards ({:?})", other.map(|r| r.map(|_| ()))),
@@ -141,6 +152,10 @@ mod verif_rp_c10_session {
         let joined = match tokio::time::timeout(Duration::from_secs(10), task).await { Ok(j) => j, Err(_) => panic!("WITNESS {what}: still waiting after 10 s") };
         let res = match joined { Ok(r) => r, Err(e) => panic!("WITNESS {what}: panicked ({e})") };
         if rep != Rep::Syncing { assert!(res.is_err(), "WITNESS {what}: replica is not syncing but the session reports success {res:?}"); }
+        // the reply to the Init frame is always read: if it is undecodable, cut short or not a reply at all the session must not report success
+        if rep == Rep::Syncing && (matches!(seq.first(), Some(Fr::Garbage) | Some(Fr::InitFp) | Some(Fr::InitEntry) | Some(Fr::InitUnknown)) || (cut && seq.len() == 1)) {
+            assert!(res.is_err(), "WITNESS {what}: the first reply is broken or not a reply, but the initiating side reports success {res:?}");
+        }
         if matches!(seq.first(), Some(Fr::Abort)) && rep == Rep::Syncing && !(cut && seq.len() == 1) { assert!(matches!(&res, Err(e) if e.starts_with("RemoteAbort")), "WITNESS {what}: remote abort not reported: {res:?}"); }
         let mut st = match tokio::time::timeout(Duration::from_secs(10), handle.shutdown()).await {
             Ok(Ok(st)) => st,
